@@ -6,13 +6,13 @@ import (
 	"os"
 	"reflect"
 	"runtime"
-	"unsafe"
 	"strconv"
 	"strings"
 	"sync"
 	"sync/atomic"
 	"testing"
 	"time"
+	"unsafe"
 
 	"verifharness/evid"
 	"verifharness/ircsim"
